@@ -112,7 +112,7 @@ func runC20(tier string, _ []string) int {
 	c := vlib.NewCtx("C20", tier, "exploration")
 	vlib.SetPortBlock(20)
 	raceBuild := strings.Contains(os.Getenv("GORACE"), "log_path")
-	c.SetRule("per history (race-detector build): a fresh instance, 8-32 bus clients on their own connections issue ~150-400 operations against 3 nodes (a chain three deep in every other history, so that one write moves three ancestor hashes) x 2 types x 2 keys: acknowledged node-point and edge-point writes with unique (timestamp, value), node reads (split into one read per identity), admin.storeVerify; a fifth of the clients write through the library's SendNodePoints (1 s deadline), another fifth read and write through the HTTP API (so api handlers run concurrently with bus handlers); ~3% of the operations create a new leaf node below one of the nodes while its ancestors' hashes are moving, ~1% give one of the nodes being written a second placement (mirror); random 0-2 ms delays are injected at the store.afterNodeWrite / store.afterEdgeWrite hook sites (between database commit and rebroadcast/reply). Every call is recorded at the client boundary (call time before sending, return time after the reply, one monotonic clock); an unanswered operation stays open to the end of the history. Monitors: (1) porcupine linearizability of each identity's history against a max-timestamp register, (2) every request answered, (3) final content = newest accepted write per identity (C01) with consistent hashes (C03), (4) race detector reports involving simpleiot code, (5) Server.Stop during or after load: Run returns and the same file opens again with the acknowledged writes. distinct = (clients, stop mode, fingerprint class: overlapping pairs bucket, concurrent read/write pairs bucket)")
+	c.SetRule("per history (race-detector build): a fresh instance, 8-32 bus clients on their own connections issue ~150-400 operations against 3 nodes (a chain three deep in every other history, so that one write moves three ancestor hashes) x 2 types x 2 keys: acknowledged node-point and edge-point writes with unique (timestamp, value), node reads - directly and as entries of the parent's child listing - (split into one read per identity), admin.storeVerify (every fourth history carries 120 ballast nodes and two connections that only verify, so that Stop meets verifications in flight); a fifth of the clients write through the library's SendNodePoints (1 s deadline), another fifth read and write through the HTTP API (so api handlers run concurrently with bus handlers); ~3% of the operations create a new leaf node below one of the nodes while its ancestors' hashes are moving, ~1% give one of the nodes being written a second placement (mirror); random 0-2 ms delays are injected at the store.afterNodeWrite / store.afterEdgeWrite hook sites (between database commit and rebroadcast/reply). Every call is recorded at the client boundary (call time before sending, return time after the reply, one monotonic clock); an unanswered operation stays open to the end of the history. Monitors: (1) porcupine linearizability of each identity's history against a max-timestamp register, (2) every request answered, (3) final content = newest accepted write per identity (C01) with consistent hashes (C03), (4) race detector reports involving simpleiot code, (5) Server.Stop during or after load: Run returns and the same file opens again with the acknowledged writes. distinct = (clients, stop mode, fingerprint class: overlapping pairs bucket, concurrent read/write pairs bucket)")
 	c.Assume("schedules are sampled, not enumerated; a clean race-detector run means no report on the executed paths")
 	if !raceBuild {
 		c.Assume("this run was NOT built with -race")
@@ -167,6 +167,17 @@ func runC20(tier string, _ []string) int {
 			if e, err := vlib.SendAck(setup, vlib.EdgeSubj(n, parentOf[n]), data.Points{{Type: data.PointTypeTombstone, Time: time.Unix(0, 1)}, {Type: data.PointTypeNodeType, Text: "variable"}}); err != nil || e != "" {
 				c.Violate("store:legal-write-refused", fmt.Sprint(err, e), nil)
 				return
+			}
+		}
+		heavy := i%4 == 3
+		if heavy {
+			// ballast so that a verification request takes a while: 120 leaves below h-n1
+			for b := 0; b < 120; b++ {
+				id := fmt.Sprintf("h%d-b%d", i, b)
+				if e, err := vlib.SendAck(setup, vlib.EdgeSubj(id, nodes[0]), data.Points{{Type: data.PointTypeTombstone, Time: time.Unix(0, 1)}, {Type: data.PointTypeNodeType, Text: "variable"}, {Type: "role", Time: time.Unix(0, 2), Text: "ballast"}}); err != nil || e != "" {
+					c.Violate("store:legal-write-refused", fmt.Sprint(err, e), nil)
+					return
+				}
 			}
 		}
 		nClients := 8 + r.Intn(25)
@@ -291,6 +302,18 @@ func runC20(tier string, _ []string) int {
 							if err == nil {
 								c.Count("http_reads", 1)
 							}
+						} else if cr.Intn(10) < 3 {
+							// the node as an entry of its parent's child listing
+							var all []data.NodeEdge
+							all, err = client.GetNodes(nc, parentOf[node], "all", "", false)
+							for _, x := range all {
+								if x.ID == node {
+									ns = append(ns, x)
+								}
+							}
+							if err == nil {
+								c.Count("reads_through_child_listings", 1)
+							}
 						} else {
 							ns, err = client.GetNodes(nc, parentOf[node], node, "", false)
 						}
@@ -371,6 +394,40 @@ func runC20(tier string, _ []string) int {
 					}
 				}
 			}(cl, nc)
+		}
+		if heavy {
+			// two more connections do nothing but ask for verification, so that a Stop (or the end of the
+			// load) is likely to meet one in flight
+			for v := 0; v < 2; v++ {
+				vnc, err := in.Connect()
+				if err != nil {
+					c.Inconclusive(err.Error())
+					return
+				}
+				wg.Add(1)
+				go func(cl int, nc *nats.Conn) {
+					defer wg.Done()
+					for k := 0; k < 40; k++ {
+						select {
+						case <-stopCh:
+							if stopMode == "during-load" && k > 3 {
+								return
+							}
+						default:
+						}
+						call := mono()
+						s, err := adminReq(nc, "admin.storeVerify")
+						o := &c20Op{Part: "verify", Client: cl, Kind: "verify", Call: call}
+						if err == nil {
+							o.Ret = mono()
+							if s != "" {
+								o.Kind = "verify-error:" + s
+							}
+						}
+						record(o)
+					}
+				}(1000+v, vnc)
+			}
 		}
 		loadDone := make(chan struct{})
 		go func() { wg.Wait(); close(loadDone) }()
